@@ -25,7 +25,7 @@ def variants_other(r, case, keep):
     c = copy.deepcopy(case)
     for t in c["tes"]:
         if t["chrom"] != keep:
-            d = r.randint(-50, 500); t["start"] = max(1, t["start"] + d); t["stop"] = max(t["start"], t["stop"] + d + r.randint(0, 100))
+            d = r.randint(-50, 500); t["start"] = min(gen.MAXC, max(1, t["start"] + d)); t["stop"] = min(gen.MAXC, max(t["start"], t["stop"] + d + r.randint(0, 100)))
             if r.random() < 0.3:
                 t["order"], t["superfam"] = "ZZ_new_order", "ZZ_new_super"
     c["variant"] = "other chromosomes' TEs moved/relabelled"; out.append(c)
